@@ -588,7 +588,9 @@ class NpyWriter(object):
 
 def _extract_waveform(traces, sample, channel_ids=None, n_samples_waveforms=None):
     """Extract a single spike waveform."""
-    nsw = n_samples_waveforms
+    # NOTE: plain Python integer, an unsigned NumPy window length would make the window bounds
+    # below wrap around for a spike close to the start of the recording.
+    nsw = int(n_samples_waveforms)
     assert traces.ndim == 2
     dur = traces.shape[0]
     a = nsw // 2
@@ -667,6 +669,9 @@ def export_waveforms(
     """Export a selection of spike waveforms to a npy file by iterating over the data on a chunk
     by chunk basis."""
     n_spikes = len(spike_samples)
+    # NOTE: plain Python integer, the product of the shape checked at the end would overflow
+    # with a window length given as a small NumPy integer (np.int8, np.uint8).
+    n_samples_waveforms = int(n_samples_waveforms)
     spike_channels = np.asarray(spike_channels, dtype=np.int32)
     n_channels_loc = spike_channels.shape[1]
     shape = (n_spikes, n_samples_waveforms, n_channels_loc)
